@@ -200,10 +200,11 @@ def history_job(job):
     solver = prog["solver"]
     loads = prog["loads"]
     with quiet():
-        mesh = _grid_mesh(3, 3, ElemType.QUAD4)
+        mesh = _grid_mesh(3, 3, ElemType(prog.get("elem", "QUAD4")))
         mat = Models.Elastic.Isotropic(2, E=10.0, v=0.25, planeStress=False)
         model = PF(mat, PF.SplitType.Miehe, PF.ReguType.AT2, Gc=1e-4, l0=0.5, solver=PF.SolverType(solver))
         sim = Simulations.PhaseField(mesh, model, verbosity=False)
+    between = prog.get("query") == "between"
     bottom = mesh.Nodes_Conditions(lambda x, y, z: y == 0)
     top = mesh.Nodes_Conditions(lambda x, y, z: y == y.max())
     steps = []
@@ -215,6 +216,10 @@ def history_job(job):
             sim.add_dirichlet(bottom, [0, 0], ["x", "y"])
             sim.add_dirichlet(top, [0.0, 2.5e-3 * l], ["x", "y"])
             sim.Solve(tolConv=1e-3, maxIter=50)
+            if between:
+                for name in ("psiP", "damage"):
+                    for nodal in (False, True):
+                        sim.Result(name, nodeValues=nodal)
             sim.Save_Iter()
             h = np.asarray(sim.Result("psiP", nodeValues=False)).ravel()
         dstored = np.asarray(sim.Get_results(n)["damage"]).ravel()
@@ -227,7 +232,7 @@ def history_job(job):
                   dmax=float(dstored.max()))
         steps.append(st)
         prev_d, prev_h = dstored.copy(), h.copy()
-    return {"id": f"{solver}/{'-'.join(map(str, loads))}", "solver": solver, "steps": steps}
+    return {"id": f"{solver}/{prog.get('elem', 'QUAD4')}/{prog.get('query', 'none')}/{'-'.join(map(str, loads))}", "solver": solver, "steps": steps}
 
 
 def run(ctx):
@@ -269,7 +274,7 @@ def run(ctx):
     r2 = ctx.tlc_must_hold("PhaseFieldHist", "PhaseFieldHist.cfg", what="HistoryMonotone / DamageMonotone / NoLoadNoDamage", workers=8)
     progs = r2.prints.get("PROGRAM", [])
     if not ctx.thorough:
-        progs = [p for i, p in enumerate(progs) if (i + ctx.seed) % 5 == 0 or p["loads"] in ([0, 0, 0, 0], [2, 0, 1, 0], [1, 2, 0, 2])]
+        progs = [p for i, p in enumerate(progs) if (i + ctx.seed) % 11 == 0 or p["loads"] in ([0, 0, 0, 0], [2, 0, 1, 0], [1, 2, 0, 2])]
     traces = ctx.pmap(history_job, list(enumerate(progs)), chunksize=1)
     traces = [t for t in traces if t]
     path = os.path.join(ctx.scratch, "pf_traces.json")
